@@ -186,6 +186,36 @@ def run(ctx):
             else:
                 o.violated(cj, calls[0], f"resolve_degree({', '.join(args)}): the split of degree {k} must be weighted by the degree function at the same {k}")
             b = match(pat("range(self._low_high_degree_bound[0], self._low_high_degree_bound[1])"), Scope(cj.node).resolve(lp.iter))
+            if b is None and isinstance(lp.iter, ast.Call):
+                # the degrees may come from a generator method: look INTO it - it must walk the configured range and
+                # hand out every degree (no data-dependent exit, no conditional yield)
+                gen = rules.resolve_call(prog, cj, lp.iter)
+                if gen is not None and any(isinstance(x, ast.Yield) for x in astx.walk_fn(gen.node)):
+                    gsc = Scope(gen.node)
+                    gl = [x for x in gen.body if isinstance(x, ast.For)]
+                    rng = gsc.resolve(gl[0].iter) if len(gl) == 1 else None
+                    lo_hi = None
+                    if rng is not None:
+                        bb = match(pat("range($lo, $hi)"), rng)
+                        if bb is not None:
+                            lo_hi = (rules.term_of(bb["lo"], gsc), rules.term_of(bb["hi"], gsc))
+                    # `low, high = self._low_high_degree_bound` unpacks to [0], [1]
+                    want = (tm.parse("self._low_high_degree_bound[0]"), tm.parse("self._low_high_degree_bound[1]"))
+                    exits = [x for x in ast.walk(gl[0]) if isinstance(x, (ast.Break, ast.Return))] if len(gl) == 1 else []
+                    ys = [x for x in ast.walk(gl[0]) if isinstance(x, ast.Yield)] if len(gl) == 1 else []
+                    gpar = gsc.parents
+                    cond_yield = [y for y in ys if rules.path_conditions(gpar, y, upto=gl[0])]
+                    if lo_hi == want and exits:
+                        o.violated(gen, exits[0], f"`{gen.qualname}` stops handing out degrees early (`{txt(gpar.stmt_of(exits[0]) if not isinstance(gpar.parent(exits[0]), ast.If) else gpar.parent(exits[0]).test)}`): "
+                                                   "degrees of the configured range above a data-dependent cut-off get no mass (the degree function need not be normalised, "
+                                                   "so a running sum reaching 1 says nothing)", sure=True)
+                        continue
+                    if lo_hi == want and cond_yield:
+                        o.violated(gen, cond_yield[0], f"`{gen.qualname}` yields some degrees of the configured range only conditionally: they get no mass", sure=True)
+                        continue
+                    if lo_hi == want and len(ys) == 1:
+                        o.holds(gen, gl[0], f"degrees come from `{gen.qualname}`, which walks the whole configured range")
+                        continue
             if b is None:
                 t = txt(Scope(cj.node).resolve(lp.iter))
                 if "self._low_high_degree_bound" in t:
